@@ -484,7 +484,36 @@ def rule_r5(p, res):
     r.check(len(rr) == 1 and norm(rr[0].value) == "[self.copy()]", da, da.node, "a discrete affine decomposes into a copy of itself")
 
 
-RULES = [rule_r1, rule_r2, rule_r3, rule_r4, rule_r5]
+def rule_r6(p, res):
+    r = res.rule("C03.R6", "as_non_alignment rebuilds the plain transform from the alignment's *current* matrix, never from source / target")
+    n = 0
+    for c in p.classes.values():
+        f = c.methods.get("as_non_alignment")
+        if f is None or only_raises(f.node):
+            continue
+        if not any(b.name == "HomogFamilyAlignment" for b in c.mro):
+            continue
+        if c.name == "HomogFamilyAlignment":
+            continue
+        n += 1
+        r.instance(f)
+        d = Defs(f.node)
+        rets = returns_of(f.node)
+        need(len(rets) == 1 and isinstance(rets[0].value, ast.Call), "C03.R6: %s does not return one constructor call" % f.short)
+        lv = leaves(rets[0].value, d)
+        ends = sorted(l for l in lv if l.startswith(("self.source", "self.target", "self._source", "self._target")))
+        state = [l for l in lv if l.startswith("self.") and l not in ends and l != "self.n_dims"]
+        r.check(not ends and bool(state), f, rets[0], "%s builds the plain transform from %s instead of the alignment's current state: after an in-place composition (which changes the matrix "
+                "without moving the target) the composed result no longer equals b(a(x))" % (f.short, ", ".join(ends) or "nothing of its own state"), {"function": f.short, "reads": sorted(state)})
+        # the class built is the first non-alignment class of the family in the MRO
+        k = (dotted(rets[0].value.func) or "").split(".")[-1]
+        plain = [b.name for b in c.mro[1:] if not any(x.name == "Alignment" for x in b.mro) and any(x.name == "Homogeneous" for x in b.mro)]
+        r.check(bool(plain) and k == plain[0], f, rets[0], "%s returns a %s; the plain counterpart of %s is %s" % (f.short, k, c.name, plain[0] if plain else "?"))
+    if n < 5:
+        raise AnalysisError("C03.R6: only %d as_non_alignment overrides found (floor 5)" % n)
+
+
+RULES = [rule_r1, rule_r2, rule_r3, rule_r4, rule_r5, rule_r6]
 
 WITNESSES = [
     Witness("C03.W1", "menpo/transform/homogeneous/base.py", "Homogeneous._compose_before",
@@ -515,4 +544,10 @@ WITNESSES = [
             rule="C03.R2", construct="compose_after", note="seeded change R2-C03-C"),
     Witness("C03.T1", "menpo/transform/homogeneous/base.py", "Homogeneous._compose_before_inplace",
             "np.dot(transform.h_matrix, self.h_matrix)", "transform.h_matrix.dot(self.h_matrix)", kind="T"),
+]
+
+WITNESSES += [
+    Witness("C03.W12", "menpo/transform/homogeneous/translation.py", "AlignmentTranslation.as_non_alignment", "Translation(self.translation_component)", "Translation(self.target.centre() - self.source.centre())",
+            rule="C03.R6", construct="AlignmentTranslation.as_non_alignment", note="seeded change R3-C03-A"),
+    Witness("C03.T2", "menpo/transform/homogeneous/translation.py", "AlignmentTranslation.as_non_alignment", "Translation(self.translation_component)", "Translation(self.h_matrix[:-1, -1])", kind="T"),
 ]
